@@ -587,7 +587,24 @@ pub fn run(prop: &str, tier: &str, out: Option<&Path>) -> i32 {
             assume.push("crash model: the persistent image is a program-order prefix of the executed atomic writes to the lower buffer (no reordering, no torn words); crashes inside construction and double crashes are out of scope".into());
             run_seq_ilv(prop, tier, cfgs, params, scs, opts, assume, out)
         }
-        "C01" | "C03" | "C21" => {
+        "C21" => {
+            // sequential part: every call of a bounded search runs under a step budget
+            let mut cl = classings_std();
+            cl.push(classings_zero_slot()[0].clone());
+            let frames = vec![HUGE_FRAMES + 1, TREE_FRAMES, TREE_FRAMES + HUGE_FRAMES + 3, 2 * TREE_FRAMES];
+            let cfgs = configs(&frames, &cl, &BOTH);
+            let params = SeqParams {
+                prop: prop.to_string(),
+                profile: Profile::c09(),
+                depth: if thorough { 3 } else { 2 },
+                max_states: if thorough { 300_000 } else { 50_000 },
+                probes: Probes::default(),
+                max_secs: if thorough { 300.0 } else { 20.0 },
+            };
+            let scs = crate::scenarios::generate(thorough as usize);
+            run_seq_ilv(prop, tier, cfgs, params, scs, ilv_opts(thorough), seq_assume, out)
+        }
+        "C01" | "C03" => {
             let scs = crate::scenarios::generate(thorough as usize);
             let mut opts = ilv_opts(thorough);
             opts.epilogue = prop == "C01";
